@@ -244,7 +244,9 @@ func checkMain(args []string) int {
 				if r.Result != "unsat" {
 					nb.Canaries = append(nb.Canaries, r.Name)
 				}
-			case r.Result == "unsat":
+			case r.Result == "unsat" || isKnownFinding(id, r.Name):
+				// a recorded known finding stays an obligation of the property: it is reported
+				// as KNOWN-FINDING while it fails and must not be silently dropped from the claim
 				nb.Obligations = append(nb.Obligations, r.Name)
 			default:
 				nb.Unclaimed = append(nb.Unclaimed, r.Name)
@@ -439,6 +441,7 @@ func writeEvidence(id, tier string, seed int, out *runOutput, cfg *PropConfig, w
 	var samples []any
 	var obl []any
 	var unclaimedList []any
+	var knownSeen []any
 	defer func() { evidenceUnclaimed = nil }()
 	perSolver := map[string]float64{}
 	for _, r := range out.results {
@@ -449,6 +452,12 @@ func writeEvidence(id, tier string, seed int, out *runOutput, cfg *PropConfig, w
 			// generated and attempted, but not part of the claim (never discharged on the
 			// baseline tree): reported separately, not counted as an obligation of the proof
 			unclaimedList = append(unclaimedList, map[string]any{"name": r.Name, "result": r.Result, "clause": r.Clause})
+			continue
+		}
+		if r.Result != "unsat" && isKnownFinding(id, r.Name) {
+			// recorded genuine defect of the code (known_findings.json): reported on every run as
+			// KNOWN-FINDING, not part of the discharged claim
+			knownSeen = append(knownSeen, map[string]any{"name": r.Name, "result": r.Result, "clause": r.Clause})
 			continue
 		}
 		nob++
@@ -473,6 +482,7 @@ func writeEvidence(id, tier string, seed int, out *runOutput, cfg *PropConfig, w
 	cov["obligations"] = nob
 	cov["discharged"] = ndis
 	cov["unclaimed_obligations_not_discharged"] = unclaimedList
+	cov["known_findings_seen"] = knownSeen
 	cov["functions_under_contract"] = out.funcs
 	cov["trusted_contracts"] = out.trusted
 	cov["obligation_results"] = obl
@@ -612,7 +622,9 @@ func runSelftest(id string, cfg *PropConfig, repo string, timeoutS int) (map[str
 	readJSON(filepath.Join(verifDir, "baseline", id+".json"), &base)
 	inBase := map[string]bool{}
 	for _, n := range base.Obligations {
-		inBase[n] = true
+		if !isKnownFinding(id, n) { // a recorded finding fails on the unchanged tree too: it detects nothing
+			inBase[n] = true
+		}
 	}
 	for _, pf := range ents {
 		name := strings.TrimSuffix(filepath.Base(pf), ".patch")
